@@ -287,7 +287,22 @@ fn histories(ctx: &Ctx) -> Vec<MuxCase> {
     let n = ctx.pick(160usize, 600usize);
     let maxops = ctx.pick(24usize, 60usize);
     let strat = mux::mux_history(3, maxops, 0.0);
-    (0..n).map(|_| crate::gen::draw(&strat, &mut runner)).collect()
+    let mut v: Vec<MuxCase> = (0..n).map(|_| crate::gen::draw(&strat, &mut runner)).collect();
+    // long histories (hundreds of samples): behaviour that only starts after many calls
+    let tr = |kind: mux::MKind, ts: u32| mux::MTrack { kind, timescale: ts, language: "und".into(), preset: false };
+    let aac = mux::MKind::Aac { profile: 2, freq_index: 3, chan: 2, bitrate: 128_000 };
+    let avc = mux::MKind::Avc { width: 320, height: 240, sps: vec![0x67, 0x42, 0xc0, 0x1e, 0xd9], pps: vec![0x68, 0xce] };
+    v.push(MuxCase { major: *b"isom", minor: 0, compat: vec![*b"isom"], timescale: 1000, tracks: vec![tr(aac.clone(), 48_000)], ops: (0..300u32).map(|i| mux::MOp { track: 1, size: 5 + i % 3, dur: 1024, cts: 0, sync: true }).collect(), sink: 0 });
+    v.push(MuxCase {
+        major: *b"mp42",
+        minor: 1,
+        compat: vec![],
+        timescale: 600,
+        tracks: vec![tr(avc, 90_000), tr(mux::MKind::Ttxt, 1000), tr(aac, 44_100)],
+        ops: (0..540u32).map(|i| match i % 3 { 0 => mux::MOp { track: 1, size: 9, dur: 3000, cts: (i % 2) as i32 * 3000, sync: i % 30 == 0 }, 1 => mux::MOp { track: 3, size: 4, dur: 1024, cts: 0, sync: true }, _ => mux::MOp { track: 2, size: i % 2, dur: 33, cts: 0, sync: true } }).collect(),
+        sink: 0,
+    });
+    v
 }
 
 pub fn run(ctx: &mut Ctx) {
